@@ -252,8 +252,6 @@ def operator_oracle(ctx, rng):
     table = [('__add__', op.add, False), ('__radd__', op.add, True), ('__sub__', op.sub, False), ('__rsub__', op.sub, True),
              ('__mul__', op.mul, False), ('__rmul__', op.mul, True), ('__truediv__', op.truediv, False), ('__rtruediv__', op.truediv, True)]
     for name, fn, reflected in table:
-        if not hasattr(JaxDiscreteField, name):
-            continue
         for kind in ('float', 'array', 'field'):
             if reflected and kind == 'field':
                 continue                       # field (op) field dispatches to the non-reflected method
@@ -287,7 +285,7 @@ def operator_oracle(ctx, rng):
         if not np.array_equal(got, a ** k):
             ctx.fail(f'jdf-operator:__pow__:{k}', 'JaxDiscreteField.__pow__ is not the power of the values',
                      {'exponent': k, 'field_value': a.tolist(), 'got': got.tolist(), 'expected': (a ** k).tolist()})
-    if hasattr(JaxDiscreteField, '__rpow__'):
+    if True:                                  # c ** field (a missing __rpow__ is a TypeError on a valid integrand expression)
         e = rng.integers(-3, 4, size=(2, 3)).astype(float)
         ue = JaxDiscreteField(value=jnp.asarray(e))
         base = rng.integers(1, 5, size=(2, 3)).astype(float)
@@ -303,9 +301,11 @@ def operator_oracle(ctx, rng):
             if got.shape != exp.shape or not np.allclose(got, exp, rtol=1e-13, atol=0):
                 ctx.fail(f'jdf-operator:__rpow__:{kind}', 'c ** field is not c ** values (NumPy power)',
                          {'base': np.asarray(b_np).tolist(), 'exponent_field': e.tolist(), 'got': got.tolist(), 'expected': exp.tolist()})
-    if hasattr(JaxDiscreteField, '__neg__'):
+    try:
         if not np.array_equal(np.asarray(-u, dtype=float), -a):
             ctx.fail('jdf-operator:__neg__', 'JaxDiscreteField.__neg__ is not the negated values', {'field_value': a.tolist()})
+    except Exception as ex:  # noqa: BLE001
+        ctx.fail('jdf-operator:__neg__', f'-field raises {type(ex).__name__}: {ex}', {'field_value': a.tolist()})
 
 
 def helper_oracle(ctx, rng):
